@@ -402,25 +402,26 @@ class SqlImpl(TableImpl):
 
             original_select = query.select
             query.select = []
-            cnt = dict()
+            used = set()
             name_in_subquery = dict()
+            name = {uid: sqa_expr[uid].name for uid in needed_cols.keys() if uid in sqa_expr}
 
-            # resolve potential column name collisions in the subquery
+            # resolve potential column name collisions in the subquery (column names
+            # are case insensitive in most databases)
             for uid in needed_cols.keys():
                 if uid in sqa_expr:
-                    name = sqa_expr[uid].name
-                    if c := cnt.get(name):
-                        name_in_subquery[uid] = f"{name}_{c}"
-                        cnt[name] = c + 1
-                    else:
-                        name_in_subquery[uid] = name
-                        cnt[name] = 1
-                    sqa_expr[uid] = sqa.label(name_in_subquery[uid], sqa_expr[uid])
+                    label, c = name[uid], 0
+                    while label.lower() in used:
+                        c += 1
+                        label = f"{name[uid]}_{c}"
+                    used.add(label.lower())
+                    name_in_subquery[uid] = label
+                    sqa_expr[uid] = sqa.label(label, sqa_expr[uid])
                     query.select.append(uid)
 
             table = cls.compile_query(table, query, sqa_expr).subquery()
             sqa_expr = {
-                uid: sqa.label(name_in_subquery[uid], table.columns.get(name_in_subquery[uid]))
+                uid: sqa.label(name[uid], table.columns.get(name_in_subquery[uid]))
                 for uid in needed_cols.keys()
                 if uid in sqa_expr
             }
